@@ -1030,6 +1030,110 @@ def check_stop(run: Run, prog: Program) -> None:
 
 
 # ---------------------------------------------------------------------------------------------
+CANCEL_AND_AWAIT = "_internal._asyncio:cancel_and_await"
+
+
+def check_cancel_and_await(run: Run, prog: Program) -> None:
+    """The helper the services' stop() methods use for the tasks they keep outside `_tasks`:
+    cancel the task, wait until it has really finished, swallow its cancellation and nothing else."""
+    if prog.has_func(CANCEL_AND_AWAIT):
+        targets = [prog.func(CANCEL_AND_AWAIT)]
+    else:
+        # renamed / moved: any module-level coroutine that cancels its only parameter and awaits
+        targets = [f for f in prog.all_functions() if f.cls is None and f.outer is None and f.is_async
+                   and len(f.params) == 1
+                   and has_call(f.node, lambda c, f=f: method_call(c, f.params[0], "cancel"))
+                   and any(isinstance(x, ast.Await) for x in walk_no_nested(f.node))]
+        if not targets:
+            run.note("no cancel-and-await helper in the tree: every stop() awaits its tasks itself")
+            return
+    for target in targets:
+        fl = _flow(run, prog, target)
+        cfg, q = fl.cfg, fl.qual
+        if len(target.params) != 1:
+            raise AnalysisError(f"{q}: expected exactly one task parameter")
+        task = target.params[0]
+        # await sites that involve the task: `await task` / `await asyncio.gather(task)` raise the
+        # task's outcome at the await; everything else (gather(return_exceptions=True),
+        # asyncio.wait, wait_for, shield, ...) hands the outcome back as a value or alters it
+        good: list[int] = []
+        bad: list[tuple[int, ast.AST]] = []
+        for n in cfg.nodes:
+            if n.ast is None or isinstance(n.ast, (ast.FunctionDef, ast.AsyncFunctionDef, ast.ClassDef)):
+                continue
+            for part in own_parts(n):
+                for x in walk_no_nested(part):
+                    if not isinstance(x, ast.Await):
+                        continue
+                    v = fl.expand(n.id, x.value)
+                    mentions = any(isinstance(y, ast.Name) and y.id == task for y in ast.walk(v))
+                    if not mentions:
+                        continue
+                    if isinstance(v, ast.Name):
+                        good.append(n.id)
+                    elif isinstance(v, ast.Call) and dotted(v.func) in ("asyncio.gather", "gather") \
+                            and [u(a) for a in v.args] == [task] and all(
+                                k.arg == "return_exceptions" and isinstance(k.value, ast.Constant)
+                                and k.value.value is False for k in v.keywords):
+                        good.append(n.id)
+                    else:
+                        bad.append((n.id, x))
+        for nid, x in bad:
+            run.violation("C10.STOP", q, x,
+                          "the task being stopped is awaited through a construct that does not raise "
+                          "its outcome here (gather(return_exceptions=True), asyncio.wait, wait_for, "
+                          "...): an error it raises while being stopped is discarded instead of "
+                          "propagated to stop()", node=x, file=fl.file)
+        cancels = [i for i, c in fl.calls(lambda c: isinstance(c.func, ast.Attribute)
+                                          and c.func.attr == "cancel")
+                   if fl.text(i, c.func.value) == task]  # type: ignore[attr-defined]
+        running = fl.consistent(truthy(f"{task}.done()", False), normal=True)
+        sites = good + [i for i, _ in bad]
+        wit = cfg.path(cfg.entry, [cfg.exit], avoid=sites, edge_ok=running)
+        run.check(bool(sites) and wit is None, "C10.STOP", q, "await task",
+                  "a task that is still running is not awaited: the caller's stop() returns before "
+                  "the task has finished", node=target.node, file=fl.file, path=fl.fmt(wit),
+                  instance=f"{q}: a running task is awaited on every path")
+        wit = cfg.path(cfg.entry, sites, avoid=cancels, edge_ok=running) if sites else None
+        run.check(bool(cancels) and wit is None, "C10.STOP", q, "task.cancel() before await task",
+                  "the task is awaited without having been cancelled first (stop() would hang until "
+                  "the task ends by itself)", node=target.node, file=fl.file, path=fl.fmt(wit),
+                  instance=f"{q}: cancel() precedes the await")
+        for nid in good:
+            n = cfg.nodes[nid]
+            swallowed_by_with = _suppressed_classes(fl.fn.node, n.ast) - {"CancelledError"}
+            for kind, word in (("E", "an Exception"), ("B", "a non-Exception BaseException")):
+                tg = [m for m, lab in cfg.succ[nid] if lab == f"exc:{kind}"]
+                reach = cfg.reachable(tg)
+                wit = cfg.path(tg[0], [cfg.exit]) if tg and cfg.exit in reach else None
+                run.check(bool(tg) and cfg.exit not in reach and cfg.raise_exit in reach
+                          and not swallowed_by_with, "C10.STOP", q,
+                          f"{word} of the stopped task", f"{word} raised by the task while it is being "
+                          "stopped is swallowed (only its CancelledError may be): stop() would not "
+                          "surface the error", node=n.ast, file=fl.file, path=fl.fmt(wit),
+                          instance=f"{q}: {word} of the awaited task propagates")
+            tg = [m for m, lab in cfg.succ[nid] if lab == "exc:C"]
+            reach = cfg.reachable(tg)
+            suppressed = cfg.exit in reach or "CancelledError" in _suppressed_classes(fl.fn.node, n.ast)
+            run.check(suppressed, "C10.STOP", q, "CancelledError of the stopped task",
+                      "the cancellation this helper itself requested is not suppressed: every stop() "
+                      "built on it would raise CancelledError", node=n.ast, file=fl.file,
+                      instance=f"{q}: the requested cancellation is suppressed")
+
+
+def _suppressed_classes(fn: ast.AST, stmt: ast.AST | None) -> set[str]:
+    """Exception class names named by `with contextlib.suppress(...)` blocks around `stmt`."""
+    out: set[str] = set()
+    for w in ast.walk(fn):
+        if isinstance(w, (ast.With, ast.AsyncWith)) and any(x is stmt for b in w.body for x in ast.walk(b)):
+            for item in w.items:
+                c = item.context_expr
+                if isinstance(c, ast.Call) and (dotted(c.func) or "").split(".")[-1] == "suppress":
+                    out |= {(dotted(a) or u(a)).split(".")[-1] for a in c.args}
+    return out
+
+
+# ---------------------------------------------------------------------------------------------
 def check_subclasses(run: Run, prog: Program) -> None:
     """C10.SUPER: overrides keep the base discipline; every created task is registered."""
     bgs = prog.cls(BGS)
@@ -1305,6 +1409,11 @@ CONTROLS = [
      "            if task.cancelled():\n", "            if not task.cancelled():\n", "C10.RUN"),
     ("owned component manager not stopped", "microgrid._power_distributing.power_distributing",
      "        await self._component_manager.stop()\n", "", "C10.SUPER"),
+    ("cancel_and_await swallows every error", "_internal._asyncio",
+     "    except asyncio.CancelledError:\n        pass\n",
+     "    except BaseException:  # pylint: disable=broad-except\n        pass\n", "C10.STOP"),
+    ("cancel_and_await without cancel()", "_internal._asyncio",
+     "    task.cancel()\n    try:\n        await task\n", "    try:\n        await task\n", "C10.STOP"),
 ]
 
 
@@ -1312,6 +1421,7 @@ def run_rules(run: Run, prog: Program) -> None:
     check_run_loop(run, prog)
     check_single(run, prog)
     check_stop(run, prog)
+    check_cancel_and_await(run, prog)
     check_subclasses(run, prog)
     check_run_utils(run, prog)
 
